@@ -1,6 +1,7 @@
 """Slab pool rules: L1-L4 (C05), N (C04, C02), E/provenance (C01-C03), poison typestate (C03)."""
 from .ir import path, canon, std_unwrap, AnalysisBroken
 from . import flow
+from . import rules_atomic as RA
 from .rules_guard import write_of
 from .rules_lock import LockAnalysis, reach_summary, acquire_summary, call_targets, GUARD_CLASSES, guard_ctor_state, TOP
 
@@ -485,6 +486,16 @@ def check_fallible(ctx, rule, unit, fn, calls, label, allowed_in_null=()):
 
         def transfer(n, s2):
             s, al = s2
+            if s is not None and n.id != bind.id:
+                # locals written since the call (a result variable that still holds its initial null is null)
+                wd = None
+                if n.kind in ("BinaryOperator", "CompoundAssignOperator") and str(n.get("op", "")).endswith("=") and n.op not in ("==", "!=", "<=", ">="):
+                    l0 = std_unwrap(n.children[0])
+                    if l0.kind == "DeclRefExpr" and l0.get("local"):
+                        wd = l0.d["d"]
+                if wd is not None:
+                    al = (al or frozenset()) | {("w", wd)}
+                    s2 = (s, al)
             if n.kind == "BinaryOperator" and n.op == "=" and n.id != bind.id:
                 lp = place_of(n.children[0], alias)
                 if lp is not None and lp[1] is None and lp != place:
@@ -562,8 +573,13 @@ def check_fallible(ctx, rule, unit, fn, calls, label, allowed_in_null=()):
                     v = n.child("val")
                     if v is not None:
                         vs = v.strip()
+                        still_null = False
+                        vu = std_unwrap(vs)
+                        if vu.kind == "DeclRefExpr" and vu.get("local") and ("w", vu.d["d"]) not in (cur_alias[0] or ()):
+                            i0 = RA.local_inits(fn).get(vu.d["d"])
+                            still_null = i0 is not None and (i0.strip().get("nullc") or i0.strip().kind == "CXXNullPtrLiteralExpr" or i0.strip().cv() == 0)
                         if not (vs.get("nullc") or v.get("nullc") or is_x(vs) or vs.cv() == 0
-                                or vs.kind == "CXXNullPtrLiteralExpr"):
+                                or vs.kind == "CXXNullPtrLiteralExpr" or still_null):
                             problems.append("failure path returns %s at %s, not null" % (canon(vs), n.loc))
                     tested[0] = True
                 return [s]
